@@ -573,6 +573,9 @@ impl Ctx {
                                 std::process::exit(2);
                             }
                         }
+                    } else if err.contains("out-of-memory") || err.contains("malloc limit") {
+                        eprintln!("INCONCLUSIVE: fuzz target {target} ran out of memory ({path})");
+                        std::process::exit(2);
                     } else {
                         // a crash outside the oracle: a panic of the code under test escaping the guards
                         self.violated.store(true, Ordering::SeqCst);
